@@ -284,7 +284,18 @@ def run(ctx):
     ctx.sample({"case": cases[999][1], "impl_tload": str(impl[999]["tload"])[:200]})
     projects = programs.corpus_from_tests() + programs.corpus_from_examples()
     ctx.rng.shuffle(projects)
-    n = system_level(ctx, binary, projects, 100 if ctx.quick() else len(projects))
+    # Round 7 (seed C18-r7-1): the corpus and the codec cases hold the LENGTH OF A TEXT LINE constant (a few hundred bytes);
+    # an instruction line is never wrapped, so one long string literal gives one long line.  Fixed programs, always first:
+    # literals around 4 KiB / 8 KiB / 64 KiB / 128 KiB (buffer-like sizes, +-a few bytes), ASCII and with multi-byte
+    # characters straddling the size, two long lines in one function; each prints the length and both ends of the text.
+    longs = []
+    for n_chars, ch in [(4090, "a"), (8192, "b"), (65520, "c"), (65536, "d"), (71500, "e"), (131080, "f"), (65530, "\u00e9"), (32768, "\u20ac"), (21846, "\U0001F600")]:
+        body = (ch * n_chars)[:n_chars - 3] + "xyz"
+        longs.append({"name": "long-line:%d x %r" % (n_chars, ch), "entry": "main.ms",
+                      "files": {"main.ms": "s = \"%s\"\nprint s.len()\nprint s[0]\nprint s.substring(s.len() - 3, s.len())\nt = \"%s\"\nprint (s + t).len()\nprint \"done\"\n" % (body, body[:70000][::-1] if n_chars > 70000 else "short")}})
+    projects = longs + projects
+    ctx.cov["long_line_programs"] = len(longs)
+    n = system_level(ctx, binary, projects, (100 + len(longs)) if ctx.quick() else len(projects))
     ctx.cov["programs_through_pipeline"] = n
     ctx.cov["transpile_in_place_probes"] = transpile_in_place(ctx, binary)
     ctx.cov["pipeline_history_steps"] = pipeline_histories(ctx, binary)
